@@ -27,6 +27,8 @@ func consensusTableConst(p *Program, name string) (int64, bool) {
 }
 
 func runC15(c *Ctx) {
+	c.Rule("R8", "memory of an object recycled through a sync.Pool never leaves its Get/Put window (returned, stored outside the function, sent)", 1)
+	poolEscapes(c, "R8", []string{"consensus", "rocksdb"})
 	p := c.P
 	c.Rule("R1", "log methods use the log column family, stable-store methods the stable one", 8)
 	c.Rule("R2", "index keys are BE64(index); First/LastIndex computed from the iterator each call", 3)
